@@ -230,7 +230,7 @@ template <int B> static long long start_pos(counter_engine<B> const& e) { return
 
 template <typename K, typename T, typename E>
 static void one_run(char const* ename, E const& engine, bool has_pos, int world, std::vector<std::size_t> const& plan, double target,
-    hep::callback_mode mode = hep::callback_mode::silent)
+    hep::callback_mode mode = hep::callback_mode::silent, std::size_t pre = 0)
 {
     typedef typename K::chk C;
     int id = run_counter++;
@@ -240,15 +240,22 @@ static void one_run(char const* ename, E const& engine, bool has_pos, int world,
     MPI_Comm_size(MPI_COMM_WORLD, &world);
 #endif
     std::size_t k = hep::random_number_usage<T, E>();
+    // optionally continue from a checkpoint that already holds `pre` results (produced serially, not part of the trace)
+    C start = K::fresh(engine);
+    if (pre)
+    {
+        ectx.log = false; ectx.has_pos = false; ectx.iter = 1000;
+        start = K::serial(start, std::vector<std::size_t>(pre, 64), hep::callback<C>(hep::callback_mode::silent));
+    }
     ev("MRun").i("run", id).s("kind", K::name()).s("T", type_name<T>::get()).s("engine", ename).i("P", world).a("plan", plan)
         .i("usage", (long long) (K::per_call() * k)).i("hasPos", has_pos ? 1 : 0).i("base", start_pos(engine)).i("posMod", std::string(ename) == "counter32" ? 1048576 : 8388608).i("target", target > 0 ? 1 : 0)
-        .i("exactFirstOnly", std::string(K::name()) == "plain" ? 0 : 1).emit();
+        .i("exactFirstOnly", std::string(K::name()) == "plain" ? 0 : 1).i("n0", (long long) pre).emit();
     // serial reference
     if (root)
     {
-        ectx.log = false; ectx.has_pos = has_pos; ectx.iter = 0;
+        ectx.log = false; ectx.has_pos = has_pos && !pre; ectx.iter = (int) pre;
         long pd = 0;
-        C s = K::serial(K::fresh(engine), plan, obs_cb<K, T, C>{hep::callback<C>(hep::callback_mode::silent, "", T(target)),
+        C s = K::serial(start, plan, obs_cb<K, T, C>{hep::callback<C>(hep::callback_mode::silent, "", T(target)),
             hep::mpi_callback<C>(hep::callback_mode::silent, "", T(target)), true, &pd});
         ev("SerialFinal").i("n", (long long) s.results().size()).i("text", ids().id("t:" + text_of(s))).emit();
     }
@@ -256,9 +263,9 @@ static void one_run(char const* ename, E const& engine, bool has_pos, int world,
     real_seq = 0;
 #endif
     auto body = [&](MPI_Comm comm, int rank) {
-        ectx.log = true; ectx.has_pos = has_pos; ectx.iter = 0;
+        ectx.log = true; ectx.has_pos = has_pos && !pre; ectx.iter = (int) pre;
         long pd = 0;
-        C r = K::parallel(comm, K::fresh(engine), plan, obs_cb<K, T, C>{hep::callback<C>(hep::callback_mode::silent, "", T(target)),
+        C r = K::parallel(comm, start, plan, obs_cb<K, T, C>{hep::callback<C>(hep::callback_mode::silent, "", T(target)),
             hep::mpi_callback<C>(mode, "", T(target)), false, &pd});
         ectx.log = false;
         ev("Returned").i("rank", rank).i("n", (long long) r.results().size()).i("text", ids().id("t:" + text_of(r))).emit();
@@ -300,6 +307,10 @@ template <typename T> static void family(rng& g, std::vector<int> const& worlds,
         one_run<mc_k<T, counter_engine<64>, 64>, T>("counter64", counter_engine<64>(s), true, w, make_plan(g, w), 0.0);
         one_run<plain_k<T, counter_engine<32>, 32>, T>("counter32", counter_engine<32>(s), true, w, make_plan(g, w), 0.0);
         one_run<mc_k<T, counter_engine<32>, 32>, T>("counter32", counter_engine<32>(s), true, w, make_plan(g, w), 0.0);
+        // continued from a checkpoint with results (in memory): the first resumed iteration must use the refinement of the last result
+        one_run<vegas_k<T, std::mt19937, 0>, T>("mt19937", std::mt19937(s), false, w, make_plan(g, w), 0.0, hep::callback_mode::silent, 1 + g.below(2));
+        one_run<mc_k<T, std::mt19937, 0>, T>("mt19937", std::mt19937(s), false, w, make_plan(g, w), 0.0, hep::callback_mode::silent, 1);
+        one_run<plain_k<T, counter_engine<64>, 64>, T>("counter64", counter_engine<64>(s), false, w, make_plan(g, w), 0.0, hep::callback_mode::silent, 2);
         if (thorough || w <= 4)
         {
             one_run<plain_k<T, std::mt19937, 0>, T>("mt19937", std::mt19937(s), false, w, std::vector<std::size_t>{300, 300, 300, 300}, 0.05);
